@@ -306,7 +306,9 @@ def predicted_result(path, c, eng):
             vv = c.term_string(v) if isinstance(v, z3.ExprRef) else None
             attrs.append({'key': kk, 'value': vv})
         pred['attributes'] = attrs
-    # storage after the step (rolled back on failure: the pre-state)
+        if isinstance(path.resp, Adt) and path.resp.ty == 'Binary':
+            inner = path.resp.fields[0]
+            pred['data'] = c.json(inner.a[0], ti, sr) if isinstance(inner, Opaque) and inner.tag == 'Json' else None
     return pred
 
 
@@ -344,6 +346,8 @@ def compare_replay(pred, post_storage, native_step, ignore_keys=()):
                         diffs.append('attribute key: predicted %s native %s' % (p['key'], n['key']))
                     elif p['value'] is not None and p['value'] != n['value'] and n['key'] not in ignore_keys:
                         diffs.append('attribute %s: predicted %r native %r' % (n['key'], p['value'], n['value']))
+    if 'data' in pred and pred['data'] is not None and nk == 'ok' and pred['data'] != native_step.get('data'):
+        diffs.append('query data: predicted %s native %s' % (json.dumps(pred['data'], sort_keys=True), json.dumps(native_step.get('data'), sort_keys=True)))
     if post_storage is not None:
         ns = native_step['storage']
         for k in ('contract_info', 'version_info'):
